@@ -562,8 +562,9 @@ def _entries(data, images=False):
         return sum(1 for _ in extract_pages(io.BytesIO(data)))
 
     def e_xml():
-        fp = io.StringIO()
-        extract_text_to_fp(io.BytesIO(data), fp, output_type="xml", codec=None)
+        # a binary sink with the default codec, as pdf2txt.py uses it: the encoding step is part of the entry point
+        fp = io.BytesIO()
+        extract_text_to_fp(io.BytesIO(data), fp, output_type="xml")
         return len(fp.getvalue())
 
     def e_images():
